@@ -380,13 +380,11 @@ theorem RInv_init (c : Cfg) (rq : Req) : RInv rq { prog := program c rq } := by
     simp only [program, hk]
     refine ⟨rfl, ?_, ?_⟩
     · simp only [List.cons_append, List.nil_append, finalTmp, List.append_assoc]
-      rw [finalTmp_setProg]
-      simp only [List.cons_append, List.nil_append]
-      rw [finalTmp_neutral _ _ _ _ rfl, finalTmp_setProg, finalTmp_noPriv _ _ _ (publishProg_noPriv _)]
+      rw [finalTmp_setProg, finalTmp_setProg, finalTmp_noPriv _ _ _ (publishProg_noPriv _)]
       simp [written, Req.sets, hk, applySets]
     · simp only [List.cons_append, List.nil_append, List.append_assoc]
-      rw [okOrder_neutral _ _ rfl, okOrder_append_neutral _ _ (setProg_noPub _)]
-      rw [okOrder_neutral _ _ rfl, okOrder_append_neutral _ _ (setProg_noPub _)]
+      rw [okOrder_neutral _ _ rfl, okOrder_neutral _ _ rfl, okOrder_append_neutral _ _ (setProg_noPub _)]
+      rw [okOrder_append_neutral _ _ (setProg_noPub _)]
       have := okOrder_publishProg c.strat [] rfl
       simpa using this
   | delete => simp [program, hk, hasPub, Act.isPub] at hpub
